@@ -10,6 +10,7 @@ UNIT_DEFAULT_PROPS = {
     "U2": ["C11"],
     "U3": ["C02"],
     "U4": ["C11"],
+    "U6": ["C02"],
     "U7": ["C02"],
     "U8": ["C05"],
     "U10": ["C09"],
@@ -17,7 +18,7 @@ UNIT_DEFAULT_PROPS = {
 
 # property -> units run (all feature sets of the unit), units whose panic-freedom counts for it
 PROPS = {
-    "C02": {"units": ["U3", "U4", "U7"], "safety_units": ["U7"]},
+    "C02": {"units": ["U3", "U4", "U6", "U7", "U8"], "safety_units": ["U6", "U7"]},
     "C05": {"units": ["U8"], "safety_units": ["U8"]},
     "C09": {"units": ["U10"], "safety_units": ["U10"]},
     "C11": {"units": ["U1", "U2", "U3", "U4"], "safety_units": ["U1", "U2", "U3", "U4"]},
